@@ -1,6 +1,7 @@
 package main
 
 import (
+	"bytes"
 	"encoding/json"
 	"fmt"
 	"math/rand"
@@ -410,7 +411,7 @@ func c11Run(c *Ctx) {
 	if !c.searchMode {
 		maxLen := []int{7, 6, 6, 6}
 		if c.Thorough() {
-			maxLen = []int{9, 8, 8, 8}
+			maxLen = []int{9, 8, 7, 7}
 		}
 		total := 0
 		for ti, d := range c11Triples {
@@ -786,8 +787,12 @@ func c11DropChars(s string) []string {
 func c11Shrink(kind string, raw []byte) [][]byte {
 	var out [][]byte
 	emit := func(v any) {
-		if b, err := json.Marshal(v); err == nil {
-			out = append(out, b)
+		// no HTML escaping: "<" must not grow to \u003c, or a smaller case looks larger
+		var buf bytes.Buffer
+		enc := json.NewEncoder(&buf)
+		enc.SetEscapeHTML(false)
+		if err := enc.Encode(v); err == nil {
+			out = append(out, bytes.TrimSpace(buf.Bytes()))
 		}
 	}
 	tblVariants := func(t [][2]string, f func([][2]string)) {
